@@ -75,6 +75,7 @@ type evObl struct {
 	VCBytes int               `json:"vc_bytes"`
 	Pos     string            `json:"pos,omitempty"`
 	Answers map[string]string `json:"answers,omitempty"`
+	Retried bool              `json:"retried_alone,omitempty"`
 }
 
 func cmdCheck(args []string) {
@@ -211,7 +212,7 @@ func cmdCheck(args []string) {
 	}
 	for _, r := range res {
 		solverMs += r.R.Ms
-		evs = append(evs, evObl{r.O.Name, r.O.Kind, r.O.Clause, r.R.Status, r.R.Solver, r.R.Ms, r.R.VCBytes, r.O.Pos, r.R.Answers})
+		evs = append(evs, evObl{r.O.Name, r.O.Kind, r.O.Clause, r.R.Status, r.R.Solver, r.R.Ms, r.R.VCBytes, r.O.Pos, r.R.Answers, r.R.Retried})
 		switch {
 		case r.O.Kind == "canary":
 			id := r.O.Finding.ID
@@ -374,6 +375,21 @@ func solveJobs(jobs []oblResult, dir string, timeoutS int, thorough bool) []oblR
 		}(&jobs[i])
 	}
 	wg.Wait()
+	// An obligation that no solver decided (timeout / unknown, typically on a loaded machine) is tried
+	// once more on its own with three times the time before it is reported as undischarged. A "sat"
+	// answer is never retried.
+	for i := range jobs {
+		j := &jobs[i]
+		if j.O.Cover || j.OK || j.R.Status == "sat" {
+			continue
+		}
+		text := queryText(j.VC.Engine.sc, j.O, false)
+		first := j.R
+		j.R = solve(dir, j.O.Name, text, 3*timeoutS, thorough)
+		j.R.Ms += first.Ms
+		j.R.Retried = true
+		j.OK = j.R.Status == "unsat"
+	}
 	return jobs
 }
 
